@@ -10,12 +10,12 @@ package netty
 //   pos(c)       ghost: the position of context c in its pipeline
 //@ property C03
 //@ ghost node(ref, int) *handlerContext
-//@ ghost pos(ref) int
+//@ ghost pos(*handlerContext) int
 //@ spec func plOf(hc *handlerContext) *pipeline = as(hc.pipeline, *pipeline)
 //@ spec func inlist(p *pipeline, c *handlerContext) bool = c != nil && 0 <= pos(c) && pos(c) < p.size && node(p, pos(c)) == c
 //@ spec func WFnodes(p *pipeline) bool = forall(i, 0, p.size, node(p, i) != nil && pos(node(p, i)) == i && is(node(p, i).pipeline, *pipeline) && as(node(p, i).pipeline, *pipeline) == p)
 //@ spec func WFlinks(p *pipeline) bool = forall(i, 0, p.size-1, node(p, i).next == node(p, i+1)) && forall(i, 1, p.size, node(p, i).prev == node(p, i-1))
-//@ spec func WFends(p *pipeline) bool = p != nil && p.size >= 2 && p.size < 1<<40 && node(p, 0) == p.head && node(p, p.size-1) == p.tail && p.head.prev == nil && p.tail.next == nil
+//@ spec func WFends(p *pipeline) bool = p != nil && p.size >= 2 && node(p, 0) == p.head && node(p, p.size-1) == p.tail && p.head.prev == nil && p.tail.next == nil
 //@ spec func WF(p *pipeline) bool = WFends(p) && WFnodes(p) && WFlinks(p)
 
 // user handlers are arbitrary code: they may do anything to the heap and may panic
@@ -144,6 +144,117 @@ package netty
 //@   ensures only_handler: implies(nemitted() == 1, evis(0, "EventHandler.HandleEvent"))
 //@   ensures target: implies(count("EventHandler.HandleEvent") == 1, evis(0, "EventHandler.HandleEvent") && is(evarg(0, 0), *handlerContext) && evarg(0, 1) == event && at(0, inlist(plOf(hc), as(evarg(0, 0), *handlerContext)) && pos(as(evarg(0, 0), *handlerContext)) > pos(hc) && as(evarg(0, 0), *handlerContext).cast2Event != nil && evrecv(0) == as(evarg(0, 0), *handlerContext).cast2Event && forall(l, pos(hc)+1, pos(as(evarg(0, 0), *handlerContext)), node(plOf(hc), l).cast2Event == nil)))
 //@   ensures none: implies(count("EventHandler.HandleEvent") == 0, forall(l, pos(hc)+1, plOf(hc).size, node(plOf(hc), l).cast2Event == nil))
+
+// ---------------------------------------------------------------------------
+// pipeline queries
+//@ property C03
+//@ func (*pipeline).Size
+//@   requires p != nil
+//@   ensures result == p.size
+//@ func (*pipeline).IndexOf
+//@   param comp pure
+//@   requires WF(p) && comp != nil
+//@   loop 0 modifies none
+//@   loop 0 invariant at: inlist(p, head) && pos(head) == i
+//@   loop 0 invariant before: forall(l, 0, i, !comp(node(p, l).handler))
+//@   loop 0 decreases p.size - i
+//@   ensures found: implies(result >= 0, result < p.size && comp(node(p, result).handler) && forall(l, 0, result, !comp(node(p, l).handler)))
+//@   ensures notfound: implies(result < 0, result == -1 && forall(l, 0, p.size, !comp(node(p, l).handler)))
+//@ func (*pipeline).LastIndexOf
+//@   param comp pure
+//@   requires WF(p) && comp != nil
+//@   loop 0 modifies none
+//@   loop 0 invariant at: inlist(p, tail) && pos(tail) == i
+//@   loop 0 invariant after: forall(l, i+1, p.size, !comp(node(p, l).handler))
+//@   loop 0 decreases i + 1
+//@   ensures found: implies(result >= 0, result < p.size && comp(node(p, result).handler) && forall(l, result+1, p.size, !comp(node(p, l).handler)))
+//@   ensures notfound: implies(result < 0, result == -1 && forall(l, 0, p.size, !comp(node(p, l).handler)))
+//@ func (*pipeline).ContextAt
+//@   requires WF(p) && position >= -1
+//@   loop 0 modifies none
+//@   loop 0 invariant inlist(p, curNode) && pos(curNode) == i && i <= position
+//@   loop 0 decreases position - i
+//@   ensures inrange: implies(0 <= position && position < p.size, is(result, *handlerContext) && as(result, *handlerContext) == node(p, position))
+//@   ensures outside: implies(position == -1 || position >= p.size, result == nil)
+
+// ---------------------------------------------------------------------------
+// pipeline construction
+//@ spec func castsOK(c *handlerContext) bool = (c.cast2Active != nil) == impl(c.handler, ActiveHandler) && implies(c.cast2Active != nil, c.cast2Active == c.handler) && (c.cast2Inbound != nil) == impl(c.handler, InboundHandler) && implies(c.cast2Inbound != nil, c.cast2Inbound == c.handler) && (c.cast2Outbound != nil) == impl(c.handler, OutboundHandler) && implies(c.cast2Outbound != nil, c.cast2Outbound == c.handler) && (c.cast2Exception != nil) == impl(c.handler, ExceptionHandler) && implies(c.cast2Exception != nil, c.cast2Exception == c.handler) && (c.cast2Inactive != nil) == impl(c.handler, InactiveHandler) && implies(c.cast2Inactive != nil, c.cast2Inactive == c.handler) && (c.cast2Event != nil) == impl(c.handler, EventHandler) && implies(c.cast2Event != nil, c.cast2Event == c.handler)
+//@ spec func WFcasts(p *pipeline) bool = forall(i, 0, p.size, castsOK(node(p, i)))
+
+//@ func newHandlerContext
+//@   inline
+
+//@ func NewPipeline
+//@   after exit ghostset node(q, i) = ite(q == as(result, *pipeline), ite(i == 0, as(result, *pipeline).head, as(result, *pipeline).tail), node(q, i))
+//@   after exit ghostset pos(c) = ite(c == as(result, *pipeline).head, 0, ite(c == as(result, *pipeline).tail, 1, pos(c)))
+//@   ensures is(result, *pipeline) && fresh(as(result, *pipeline))
+//@   ensures wf: WF(as(result, *pipeline)) && WFcasts(as(result, *pipeline))
+//@   ensures empty: as(result, *pipeline).size == 2 && as(result, *pipeline).channel == nil
+
+//@ func (*pipeline).addLast
+//@   requires WF(p) && WFcasts(p) && p.size < 1<<40
+//@   modifies handlerContext.next, handlerContext.prev, pipeline.size, ghost node, ghost pos
+//@   after exit ghostset node(q, i) = ite(q == p && i == p.size-2, p.tail.prev, ite(q == p && i == p.size-1, p.tail, node(q, i)))
+//@   after exit ghostset pos(c) = ite(c == p.tail.prev, p.size-2, ite(c == p.tail, p.size-1, pos(c)))
+//@   ensures wf_ends: WFends(p)
+//@   ensures wf_nodes: WFnodes(p)
+//@   ensures wf_links: WFlinks(p)
+//@   ensures casts: WFcasts(p)
+//@   ensures size: p.size == old(p.size) + 1 && p.tail == old(p.tail) && p.head == old(p.head)
+//@   ensures kept: forall(i, 0, old(p.size)-1, node(p, i) == old(node(p, i)))
+//@   ensures added: node(p, p.size-2).handler == handler && fresh(node(p, p.size-2))
+
+//@ func (*pipeline).addFirst
+//@   requires WF(p) && WFcasts(p) && p.size < 1<<40
+//@   modifies handlerContext.next, handlerContext.prev, pipeline.size, ghost node, ghost pos
+//@   after exit ghostset pos(c) = ite(c == p.head.next, 1, ite(is(c.pipeline, *pipeline) && as(c.pipeline, *pipeline) == p && pos(c) >= 1 && node(p, pos(c)) == c, pos(c)+1, pos(c)))
+//@   after exit ghostset node(q, i) = ite(q == p && i == 1, p.head.next, ite(q == p && i >= 2, node(q, i-1), node(q, i)))
+//@   ensures wf_ends: WFends(p)
+//@   ensures wf_nodes: WFnodes(p)
+//@   ensures wf_links: WFlinks(p)
+//@   ensures casts: WFcasts(p)
+//@   ensures size: p.size == old(p.size) + 1 && p.tail == old(p.tail) && p.head == old(p.head)
+//@   ensures kept: node(p, 0) == old(node(p, 0)) && forall(i, 1, old(p.size), node(p, i+1) == old(node(p, i)))
+//@   ensures added: node(p, 1).handler == handler && fresh(node(p, 1))
+
+//@ spec func admissible(h Handler) bool = impl(h, ActiveHandler) || impl(h, InboundHandler) || impl(h, OutboundHandler) || impl(h, ExceptionHandler) || impl(h, InactiveHandler) || impl(h, EventHandler)
+//@ func checkHandler
+//@   panics_iff exists(k, 0, len(handlers), !admissible(handlers[k]))
+//@   loop 0 invariant forall(k, 0, rangeindex+1, admissible(handlers[k])) && -1 <= rangeindex && rangeindex < len(handlers)
+//@   loop 0 decreases len(handlers) - rangeindex
+
+//@ func (*pipeline).AddLast
+//@   requires WF(p) && WFcasts(p) && p.size + len(handlers) < 1<<40
+//@   panics_iff exists(k, 0, len(handlers), !admissible(handlers[k]))
+//@   modifies handlerContext.next, handlerContext.prev, pipeline.size, ghost node, ghost pos
+//@   loop 0 invariant wf: WF(p) && WFcasts(p)
+//@   loop 0 invariant size: p.size == old(p.size) + rangeindex + 1 && p.tail == old(p.tail) && p.head == old(p.head) && -1 <= rangeindex && rangeindex < len(handlers)
+//@   loop 0 invariant kept: forall(i, 0, old(p.size)-1, node(p, i) == old(node(p, i)))
+//@   loop 0 invariant appended: forall(k, 0, rangeindex+1, node(p, old(p.size)-1+k).handler == handlers[k])
+//@   loop 0 decreases len(handlers) - rangeindex
+//@   ensures wf: WF(p) && WFcasts(p)
+//@   ensures size: p.size == old(p.size) + len(handlers) && p.tail == old(p.tail) && p.head == old(p.head)
+//@   ensures kept: forall(i, 0, old(p.size)-1, node(p, i) == old(node(p, i))) && node(p, p.size-1) == old(p.tail)
+//@   ensures appended: forall(k, 0, len(handlers), node(p, old(p.size)-1+k).handler == handlers[k])
+//@   ensures self: is(result, *pipeline) && as(result, *pipeline) == p
+//@   ensures_panic untouched: p.size == old(p.size) && forall(i, 0, p.size, node(p, i) == old(node(p, i)))
+
+//@ func (*pipeline).AddFirst
+//@   requires WF(p) && WFcasts(p) && p.size + len(handlers) < 1<<40
+//@   panics_iff exists(k, 0, len(handlers), !admissible(handlers[k]))
+//@   modifies handlerContext.next, handlerContext.prev, pipeline.size, ghost node, ghost pos
+//@   loop 0 invariant wf: WF(p) && WFcasts(p)
+//@   loop 0 invariant size: p.size == old(p.size) + rangeindex + 1 && p.tail == old(p.tail) && p.head == old(p.head) && -1 <= rangeindex && rangeindex < len(handlers)
+//@   loop 0 invariant kept: node(p, 0) == old(node(p, 0)) && forall(i, 1, old(p.size), node(p, i+rangeindex+1) == old(node(p, i)))
+//@   loop 0 invariant prepended: forall(k, 0, rangeindex+1, node(p, 1+k).handler == handlers[rangeindex-k])
+//@   loop 0 decreases len(handlers) - rangeindex
+//@   ensures wf: WF(p) && WFcasts(p)
+//@   ensures size: p.size == old(p.size) + len(handlers) && p.tail == old(p.tail) && p.head == old(p.head)
+//@   ensures kept: node(p, 0) == old(node(p, 0)) && forall(i, 1, old(p.size), node(p, i+len(handlers)) == old(node(p, i)))
+//@   ensures prepended: forall(k, 0, len(handlers), node(p, 1+k).handler == handlers[len(handlers)-1-k])
+//@   ensures self: is(result, *pipeline) && as(result, *pipeline) == p
+//@   ensures_panic untouched: p.size == old(p.size) && forall(i, 0, p.size, node(p, i) == old(node(p, i)))
 
 // context accessors
 //@ func (*handlerContext).Channel
